@@ -76,9 +76,14 @@ def channel_extreme(x, scale_axis, use_abs):
 
 
 def _res(x, d, near=None, alts=None, region=None, names=("all",),
-         clipped=None, pinned=None):
+         clipped=None, pinned=None, skip=None, band=None):
   z = np.zeros(x.shape, dtype=bool)
   return {"kind": "table", "d": np.asarray(d, dtype=np.float64) + np.zeros(x.shape),
+          # skip: elements whose gradient carries an undocumented extra term
+          # (only finiteness is checked); band: (lo, hi) interval of admissible
+          # derivatives where the surrogate is evaluated at a randomly rounded point
+          "skip": z if skip is None else skip,
+          "band": band,
           "near": z if near is None else near,
           "alts": [] if alts is None else [np.asarray(a, dtype=np.float64) + np.zeros(x.shape) for a in alts],
           "region": np.zeros(x.shape, dtype=np.int64) if region is None else region.astype(np.int64),
@@ -241,13 +246,34 @@ def _sign_family(cfg, x, ternary):
     d = 1.0 - np.tanh(x) ** 2          # tanh(x) is the differentiable version
   else:
     d = np.ones(x.shape)               # constant / data-dependent scale: identity
+  skip = band = None
+  if (not ternary and not stochastic and kw.get("use_stochastic_rounding", False)
+      and cfg.get("phase", 0) == 1):
+    # binary(use_stochastic_rounding=True), training phase: x is first replaced
+    # by f*round_through(x/f) with f = 2*min(max|x| per channel, 1) and the
+    # rounding to multiples of 1/8 treated as identity (straight through), then
+    # the documented surrogate applies.  Consequences for the oracle:
+    #  * constant / data-dependent alpha: identity;
+    #  * alpha None: tanh' evaluated at the randomly rounded point, which lies
+    #    within f/8 <= 0.25 of x -> any value of 1-tanh^2 on that interval;
+    #  * f itself depends on the channel maximum when it is <= 1: the maximal
+    #    element(s) of such a channel get an extra, undocumented term
+    #    f'*sum(cotangent*rounding residual) -> finiteness only there.
+    ax = tuple(range(x.ndim - 1)) if x.ndim > 1 else None
+    mx = np.broadcast_to(np.max(np.abs(x), axis=ax, keepdims=True), x.shape)
+    skip = (np.abs(x) == mx) & (mx <= 1.0)
+    if a is None:
+      w = 0.25 * np.minimum(mx, 1.0) * (1.0 + 1e-6) + 1e-6
+      lo_abs = np.maximum(np.abs(x) - w, 0.0)      # point of the interval nearest to 0
+      hi_abs = np.abs(x) + w
+      band = (1.0 - np.tanh(hi_abs) ** 2, 1.0 - np.tanh(lo_abs) ** 2)
   if ternary and not isinstance(a, str):
     t = kw.get("threshold", None)
     t = 0.33 if t is None else float(t)
     region, names = np.where(np.abs(x) >= t, 1, 0), ("dead_band", "signed")
   else:
     region, names = np.where(x < 0, 0, 1), ("negative", "non_negative")
-  return _res(x, d, region=region, names=names)
+  return _res(x, d, region=region, names=names, skip=skip, band=band)
 
 
 def _binary(cfg, x, qscale):
